@@ -79,6 +79,8 @@ Definition check05 (cs : case05) : bool * bool * bool :=
         match m with
         | Ok r =>
           let mv := tabulate (transpose (c05_out_order cs) r) in
+          list_eqb String.eqb (c05_order cs)
+                   (pad_axes_order g (c05_conn cs) (match c05_bw cs with Some w => w | None => [] end)) &&
           dimlist_eqb (reorder (c05_out_order cs) (dims r)) (fst dv) &&
           mask_eq5 (map (fun p : bool * Q => if fst p then Some (snd p) else None) (combine constrained mv))
                    (snd dv)
